@@ -20,6 +20,7 @@ import RtenVerif.Lemmas.InPlace
 import RtenVerif.Lemmas.BinaryDispatch
 import RtenVerif.Lemmas.ReduceDispatch
 import RtenVerif.Lemmas.BlockedCopy
+import RtenVerif.Lemmas.Im2Col
 import RtenVerif.Props.C09
 
 namespace RtenVerif.FastBroadcast
@@ -542,3 +543,85 @@ example : blockedCopy 5 6 4 2 (fun y x => 10 * y + x) (List.replicate 30 0) =
 example : (blockedVisits 5 6 4 2).length = 30 := by decide
 
 end RtenVerif.BlockedCopy
+
+/-! ## D7: the im2col offset tables of the general convolution path -/
+namespace RtenVerif.Im2Col
+
+/-- **C14 D7.** The im2col offset tables are layout independent: for every image stride triple
+`(sc, sth, stw)`, row `(chan, k_y, k_x)` and column `(patch_y, patch_x)`, the tables give
+`chan·sc`, `iy·sth` and `ix·stw` where `(iy, ix) = (patch_y·stride_h − pad_top + k_y·dil_y,
+patch_x·stride_w − pad_left + k_x·dil_x)` is the coordinate in the logical (padded) image — i.e.
+reading through the tables is reading logical element `(chan, iy, ix)` of the view, whatever its
+strides. -/
+theorem c14_im2col_offsets_layout_independent (p : Params) (yP xP c ky kx py px : Nat)
+    (hc : c < p.chans) (hky : ky < p.kh) (hkx : kx < p.kw) (hy : py < yP) (hx : px < xP) :
+    ∃ rc ry rx cy cx : Int,
+      (rowChanMain p)[(c * p.kh + ky) * p.kw + kx]? = some rc ∧
+      (rowYMain p)[(c * p.kh + ky) * p.kw + kx]? = some ry ∧
+      (rowXMain p)[(c * p.kh + ky) * p.kw + kx]? = some rx ∧
+      (colYMain p yP xP)[py * xP + px]? = some cy ∧
+      (colXMain p yP xP)[py * xP + px]? = some cx ∧
+      rc = (c : Int) * p.sc ∧
+      ry + cy = ((py : Int) * p.strideH - p.padTop + (ky : Int) * p.dilY) * p.sth ∧
+      rx + cx = ((px : Int) * p.strideW - p.padLeft + (kx : Int) * p.dilX) * p.stw := by
+  refine ⟨_, _, _, _, _, rowChan_get p c ky kx hc hky hkx, rowY_get p c ky kx hc hky hkx,
+    rowX_get p c ky kx hc hky hkx, colY_get p yP xP py px hy hx, colX_get p yP xP py px hy hx, rfl, ?_, ?_⟩
+  · rw [Int.add_mul, Int.mul_assoc, Int.mul_comm (p.sth : Int), Int.add_comm]
+  · rw [Int.add_mul, Int.mul_assoc, Int.mul_comm (p.stw : Int), Int.add_comm]
+
+
+/-- Non-vacuity: 3-channel 4×5 image stored NHWC (strides 1, 15, 3), 3×3 kernel, pads 1/2,
+stride 2/1, dilation 1/2: row (chan 2, k_y 1, k_x 2) and column (patch 1, patch 3). -/
+example :
+    (buildIm2col ⟨3, 4, 5, 3, 3, 1, 2, 1, 2, 2, 1, 1, 2, 1, 15, 3⟩ 1 1).map
+      (fun t => [t.rowChan[23]?, t.rowY[23]?, t.rowX[23]?, t.colY[8]?, t.colX[8]?]) =
+      some [some (2 : Int), some 15, some 12, some 15, some 3] ∧
+    (buildIm2col ⟨3, 4, 5, 3, 3, 1, 2, 1, 2, 2, 1, 1, 2, 1, 15, 3⟩ 1 1).map (fun t => (t.nRows, t.nCols)) =
+      some (27, 10) := by decide
+
+/-- The seeded variant C14_c (left padding not scaled by the image's W stride) coincides with the
+code whenever the W stride is 1 or there is no left padding — which is why contiguous inputs,
+or padded inputs without a strided W axis, cannot tell them apart … -/
+theorem c14_im2col_seeded_variant_agrees_on_unit_stride (p : Params) (yP xP : Nat)
+    (h : p.stw = 1 ∨ p.padLeft = 0) : colXMainSeeded p yP xP = colXMain p yP xP := by
+  unfold colXMainSeeded colXMain
+  congr 1
+  funext _
+  apply List.map_congr_left
+  intro px _
+  rcases h with h | h
+  · rw [h]; simp
+  · rw [h]; simp [Int.mul_assoc]
+
+/-- … and differs as soon as both hold: it is refuted as a layout-independent table (W stride 2,
+left padding 1: the code reads offset −2 = one *pixel* left of the image, the variant −1). -/
+theorem c14_im2col_seeded_variant_refuted :
+    ∃ (p : Params) (yP xP : Nat), colXMainSeeded p yP xP ≠ colXMain p yP xP ∧
+      (colXMain p yP xP)[0]? = some (((0 : Int) * p.strideW - p.padLeft) * p.stw) := by
+  exact ⟨⟨1, 1, 3, 1, 2, 0, 1, 0, 0, 1, 1, 1, 1, 6, 6, 2⟩, 1, 3, by decide, by decide⟩
+
+/-- **C14 D7b.** The padding test is layout independent for positive strides: with `st > 0` the
+offset `i·st` passes the test exactly when the logical coordinate `i` is inside the image. -/
+theorem c14_im2col_padding_test_layout_independent (size st : Nat) (i : Int) (hs : 0 < size) (hst : 0 < st) :
+    inImage size st (i * st) = true ↔ (0 ≤ i ∧ i ≤ (size : Int) - 1) := by
+  unfold inImage
+  have hstI : (0 : Int) < (st : Int) := by exact_mod_cast hst
+  have hcast : (((size - 1) * st : Nat) : Int) = ((size : Int) - 1) * st := by
+    rw [Int.natCast_mul, Int.natCast_sub hs]; rfl
+  simp only [Bool.and_eq_true, decide_eq_true_eq, hcast]
+  constructor
+  · rintro ⟨h1, h2⟩
+    refine ⟨?_, Int.le_of_mul_le_mul_right h2 hstI⟩
+    by_cases hneg : i < 0
+    · exact absurd (Int.mul_neg_of_neg_of_pos hneg hstI) (Int.not_lt.mpr h1)
+    · exact Int.not_lt.mp hneg
+  · rintro ⟨h1, h2⟩
+    exact ⟨Int.mul_nonneg h1 (Int.le_of_lt hstI), Int.mul_le_mul_of_nonneg_right h2 (Int.le_of_lt hstI)⟩
+
+/-- For a stride-0 (broadcast) axis the test accepts every coordinate, padding included: the
+positive-stride hypothesis is necessary — and the real operator does return image values in the
+padding region for such views (open finding C14-conv-broadcast-padding). -/
+theorem c14_im2col_padding_test_fails_for_stride_zero :
+    inImage 3 0 ((-1 : Int) * (0 : Nat)) = true ∧ ¬ ((0 : Int) ≤ -1) := by decide
+
+end RtenVerif.Im2Col
